@@ -305,7 +305,7 @@ def h_metadata(lu: int, ld: int, le: int, storage: str) -> None:
     reached()
 
 
-def h_fault_late(f: int, template: str, where: str) -> None:
+def h_fault_late(f: int, template: str, where: str, probe: bool = True) -> None:
     """A fault while LEAVING two-phase commit: the f-th low-level operation of tpc_abort (after a vote)
     fails, or the callback tpc_finish runs before committing raises.  The failed transaction must not
     leak into the next one: after the next commit (and after reopen) the storage shows exactly the
@@ -350,10 +350,14 @@ def h_fault_late(f: int, template: str, where: str) -> None:
         for L in _locks(s):
             check(_lock_free(L), 'commit lock still held after a failed ' + where)
         # nothing of the failed transaction is visible ...
-        B.full_battery(s, h.m)
+        # (probe=False: no reads before the following commits - the variant registered for C01, which is about what the
+        # data file holds afterwards, not about reader buffers)
+        if probe:
+            B.full_battery(s, h.m)
         # ... and nothing of it leaks into the next transaction (shorter than the failed one, and longer)
         h.commit([(T.oid(2), b'n')], b'next', b'short')
-        B.full_battery(s, h.m)
+        if probe:
+            B.full_battery(s, h.m)
         h.commit([(T.oid(1), b'next-long-' * 12), (T.oid(43), b'z' * 50)], b'next', b'long')
         B.full_battery(s, h.m)
         s.close()
@@ -421,6 +425,8 @@ def known_abort_truncate_fault(body):
             and 'Error reading' in (body.get('message') or ''))
 
 
+from zverif.harness.c12 import h_program as _conn_program  # noqa: E402
+
 HARNESSES = [
     Harness('fault', h_fault,
             decides='an I/O error at any low-level operation of begin/store/vote (optionally after a short write): after '
@@ -474,6 +480,15 @@ HARNESSES = [
             code=['FileStorage._begin', 'BaseStorage.tpc_begin', 'DemoStorage.tpc_begin/tpc_abort'],
             quick=dict(timeout=120, shards=shards(storage=['file', 'demo_file'])),
             thorough=dict(timeout=300, shards=shards(storage=['file', 'demo_file']))),
+    Harness('connection_failed_commit', _conn_program,
+            decides='connection level: after a commit that fails with a conflict in the middle of storing - also when the data comes '
+                    'from savepoints - the connection shows the state from before the transaction and the retry commits normally '
+                    '(same harness as C12 program, shards starting with a modification)',
+            symbolic='step codes of programs over modify / add / savepoint / rollback / commit / abort / a conflicting commit by another connection',
+            bounds='program length 4, first step fixed per shard', oracle='connection state model (zverif/progs.py)',
+            code=['Connection._commit_savepoint/_store_objects/tpc_abort/_abort', 'TmpStore'],
+            quick=dict(timeout=200, shards=shards(n=[4], storage=['file'], first=['modify0', 'modify1'])),
+            thorough=dict(timeout=900, shards=shards(n=[4], storage=['file', 'mapping'], first=['modify0', 'modify1', 'savepoint', 'other0']))),
 ]
 
 MANIFEST = dict(
